@@ -131,6 +131,9 @@ func (c *specCtx) evalBool(x Expr) *Term {
 	v := c.eval(x)
 	b, ok := v.(VBool)
 	if !ok {
+		if _, nocall := v.(VOpaque); nocall {
+			return c.e.fresh("nocallbool", BoolS) // value of a call that did not happen on this path: arbitrary
+		}
 		c.fail("boolean expected, got %T", v)
 	}
 	return b.T
